@@ -27,7 +27,7 @@ var (
 	childFlag  = flag.Bool("child", false, "run histories (internal)")
 	fromFlag   = flag.Int("from", 0, "first history (internal)")
 	toFlag     = flag.Int("to", 0, "one past the last history (internal)")
-	streamFlag = flag.String("stream", "v", "v: valid stream, m: malformed stream, s: scenarios")
+	streamFlag = flag.String("stream", "v", "v: valid stream, m: malformed stream, s: scenarios, x: fault scenarios")
 	kindsFlag  = flag.String("kinds", "s,v,m", "streams to run")
 	fixFlag    = flag.String("fx", "11111111111", "repairs present in the implementation (F14 F15 F16 F17 F19 F20 F21 F22 F23 F24 F25)")
 	countFlag  = flag.Int("count", 0, "histories per stream (0: by tier)")
@@ -83,6 +83,8 @@ func child(tier string, replay []string) {
 				}
 			} else if *streamFlag == "s" {
 				src = &source{kind: "s", script: scenarios[i%len(scenarios)]}
+			} else if *streamFlag == "x" {
+				src = &source{kind: "x", script: faults[i%len(faults)]}
 			} else {
 				hr := histRand(*streamFlag, i)
 				boot = hr.Intn(8) != 0
@@ -101,6 +103,7 @@ func child(tier string, replay []string) {
 
 func oneHistory(src *source, boot bool, emit func(string)) {
 	w := newWorld(boot)
+	w.oracle = src.kind == "v" || src.kind == "x"
 	w.settle()
 	if src.k == nil {
 		src.k = newKnow(NewRand(1))
@@ -110,7 +113,19 @@ func oneHistory(src *source, boot bool, emit func(string)) {
 		if !ok {
 			break
 		}
-		if e.tok[0] == 'W' {
+		if e.tok[0] == 'X' {
+			// fault event X<kind>^<application event>: the next outgoing message of that kind is not written
+			parts := strings.SplitN(e.tok[1:], "^", 2)
+			emit("E " + e.tok)
+			w.x.mu.Lock()
+			w.x.failKind = parts[0][0]
+			w.x.mu.Unlock()
+			w.doApp(parts[1])
+			w.settle()
+			w.x.mu.Lock()
+			w.x.failKind = 0
+			w.x.mu.Unlock()
+		} else if e.tok[0] == 'W' {
 			// composite event: W<hold>^<application event>^<peer message>: the application event runs with the
 			// hold in force, the peer message is delivered meanwhile, then the hold is lifted
 			parts := strings.SplitN(e.tok[1:], "^", 3)
@@ -146,10 +161,28 @@ func oneHistory(src *source, boot bool, emit func(string)) {
 		}
 		msgs, obs := w.observe()
 		deliv := strings.Split(obs, "~")[1]
-		if e.tok[0] != 'W' {
+		if e.tok[0] != 'W' && e.tok[0] != 'X' {
 			src.k.observe(e, msgs, deliv)
 		}
+		if src.kind == "x" {
+			// fault histories are judged by the wire-level invariants only (no crash, no wedge, no id reuse)
+			if w.reuse && w.oracle {
+				emit("O REUSE")
+			} else {
+				emit("O ok")
+			}
+			continue
+		}
 		emit("O " + obs)
+	}
+	if src.kind == "x" {
+		fin := w.finish()
+		if strings.Contains(fin, "PANIC") {
+			emit("X end:PANIC")
+		} else {
+			emit("X end:ok")
+		}
+		return
 	}
 	emit("X " + w.finish())
 }
@@ -283,13 +316,13 @@ func parent(out *Out, tier string, replay []string) {
 	if replay != nil {
 		jobs = []job{{"replay", len(replay)}}
 	} else {
-		per := map[string]int{"s": len(scenarios), "v": 1500, "m": 2200}
+		per := map[string]int{"s": len(scenarios), "x": len(faults), "v": 1500, "m": 2200}
 		if tier == "thorough" {
-			per = map[string]int{"s": len(scenarios), "v": 30000, "m": 45000}
+			per = map[string]int{"s": len(scenarios), "x": len(faults), "v": 30000, "m": 45000}
 		}
 		for _, k := range strings.Split(*kindsFlag, ",") {
 			n := per[k]
-			if *countFlag > 0 && k != "s" {
+			if *countFlag > 0 && k != "s" && k != "x" {
 				n = *countFlag
 			}
 			jobs = append(jobs, job{k, n})
